@@ -433,7 +433,9 @@ def obligations_for(pid, fc: FnContract, tier="quick", finding=None, timeout=Non
                                replay=rp, extra=dict(extra, model=r["model"]))
             if r["status"] == FAULT:
                 return Outcome(FAULT, "pyvc", r["detail"], extra=extra)
-            if not r.get("unsupported"):
+            if not r.get("unsupported") or getattr(case, "standin_on_unsupported", False):
+                # (opt-in per case, additive: `case.standin_on_unsupported = True` runs the same bounded stand-in when an edit took the
+                # function out of the extractor's reach -- DESIGN 2.6: a replayed counterexample is a violation, nothing else changes)
                 # the solver gave no verdict (quantified VCs rarely yield models): an undischarged obligation is not a violation,
                 # but a failing input of the REAL function against the executable contract is -- bounded native search
                 try:
